@@ -7,21 +7,9 @@ Open Scope N_scope.
 Definition s (l : list N) : str := l.
 
 (* confirmed findings (known_findings.d/C19.json): code |-> flagged locations *)
-Definition c19_findings : list (N * str) :=
-  [ (1, (* server_service_leader.leaderElection.leader *)
-        [115;101;114;118;101;114;95;115;101;114;118;105;99;101;95;108;101;97;100;101;114;46;108;101;97;100;101;114;69;108;101;99;116;105;111;110;46;108;101;97;100;101;114]);
-    (2, (* backend_election.resourceLock.record *)
-        [98;97;99;107;101;110;100;95;101;108;101;99;116;105;111;110;46;114;101;115;111;117;114;99;101;76;111;99;107;46;114;101;99;111;114;100]);
-    (2, (* backend_election.resourceLock.tso *)
-        [98;97;99;107;101;110;100;95;101;108;101;99;116;105;111;110;46;114;101;115;111;117;114;99;101;76;111;99;107;46;116;115;111]);
-    (3, (* backend_scanner.compactRecordQueue.list *)
-        [98;97;99;107;101;110;100;95;115;99;97;110;110;101;114;46;99;111;109;112;97;99;116;82;101;99;111;114;100;81;117;101;117;101;46;108;105;115;116]);
-    (4, (* server_etcd.watcher.watches *)
-        [115;101;114;118;101;114;95;101;116;99;100;46;119;97;116;99;104;101;114;46;119;97;116;99;104;101;115]);
-    (5, (* server_service_etcdproxy.etcdProxy.curLeader *)
-        [115;101;114;118;101;114;95;115;101;114;118;105;99;101;95;101;116;99;100;112;114;111;120;121;46;101;116;99;100;80;114;111;120;121;46;99;117;114;76;101;97;100;101;114]);
-    (5, (* server_service_etcdproxy.etcdProxy.client *)
-        [115;101;114;118;101;114;95;115;101;114;118;105;99;101;95;101;116;99;100;112;114;111;120;121;46;101;116;99;100;80;114;111;120;121;46;99;108;105;101;110;116]) ].
+(* C19-F1 ... C19-F5 were fixed in /repo (fix: commits); nothing is listed any more: every flagged
+   location is an unlisted violation *)
+Definition c19_findings : list (N * str) := [].
 
 Definition c19_known : list str := map snd c19_findings.
 
